@@ -143,13 +143,21 @@ def run_diff(ctx, engine, profiles, n_quick, n_thorough, oracle=None, known_clas
         found = None
         for c in extra:
             cid = c.split()[1]
-            r3 = engine.spec_only_compare(i3.get(cid, []), m3.get(cid, []))
-            if r3["level"] == "spec":
+            r3 = engine.compare_case(i3.get(cid, []), m3.get(cid, []))
+            if r3["level"] != "spec":
+                r3 = engine.spec_only_compare(i3.get(cid, []), m3.get(cid, []))
+
+            def listed_class(diff):
+                if finding_class is None:
+                    return False
+                cls = finding_class(c, diff, i3.get(cid, []), m3.get(cid, []))
+                return cls is not None and cls in listed
+            if r3["level"] == "spec" and not listed_class(r3):
                 found = (c, r3)
                 break
             if oracle is not None:
                 o3 = oracle(c, i3.get(cid, []), m3.get(cid, []))
-                if o3 is not None and not (known_class and known_class(c, o3)):
+                if o3 is not None and not (known_class and known_class(c, o3)) and not listed_class(o3):
                     found = (c, o3)
                     break
         if found:
@@ -218,7 +226,7 @@ def run_diff(ctx, engine, profiles, n_quick, n_thorough, oracle=None, known_clas
     ctx.write_evidence("proof")
 
 
-def replay(ctx, engine, rp):
+def replay(ctx, engine, rp, oracle=None):
     """Re-run exactly the recorded case against the current /repo."""
     proof_broken, rep, digest, driver, harness = engine.build(ctx)
     if "case" not in rp:
@@ -234,4 +242,7 @@ def replay(ctx, engine, rp):
     print("model + specification:")
     print("\n".join(model[cid]))
     print("first difference:", r)
-    return 1 if r["level"] else 0
+    o = oracle(c, impl[cid], model[cid]) if oracle is not None else None
+    if oracle is not None:
+        print("property oracle on the implementation:", o)
+    return 1 if (r["level"] or o) else 0
